@@ -123,6 +123,36 @@ func padLists(v interface{}) interface{} {
 	return v
 }
 
+// dottedKeys writes every nested dictionary of generic data as dotted keys of its parent ({"a": {"b": 1}} becomes
+// {"a.b": 1}): the intermediate objects are then created by the library itself while it normalises the input
+func dottedKeys(v interface{}) interface{} {
+	switch x := v.(type) {
+	case map[string]interface{}:
+		m := map[string]interface{}{}
+		var put func(prefix string, e interface{})
+		put = func(prefix string, e interface{}) {
+			if sub, ok := e.(map[string]interface{}); ok && len(sub) > 0 {
+				for k, se := range sub {
+					put(prefix+"."+k, se)
+				}
+				return
+			}
+			m[prefix] = dottedKeys(e)
+		}
+		for k, e := range x {
+			put(k, e)
+		}
+		return m
+	case []interface{}:
+		l := make([]interface{}, len(x))
+		for i, e := range x {
+			l[i] = dottedKeys(e)
+		}
+		return l
+	}
+	return v
+}
+
 func unpadLists(cfg *ucfg.Config, v interface{}, opts []ucfg.Option) error {
 	isCont := func(e interface{}) bool {
 		switch e.(type) {
@@ -262,13 +292,14 @@ func faultsReplay(args []string) int {
 		// position is recorded by another code path than NewFrom's)
 		// ... and on a configuration whose lists all had a leading element REMOVED (every element was renumbered)
 		for _, r := range append([]string{}, routes...) {
-			routes = append(routes, r+"/merged", r+"/removed")
+			routes = append(routes, r+"/merged", r+"/removed", r+"/dotted")
 		}
 		for _, route := range routes {
 			var o faultObs
 			merged := strings.HasSuffix(route, "/merged")
 			removed := strings.HasSuffix(route, "/removed")
-			route = strings.TrimSuffix(strings.TrimSuffix(route, "/merged"), "/removed")
+			dotted := strings.HasSuffix(route, "/dotted")
+			route = strings.TrimSuffix(strings.TrimSuffix(strings.TrimSuffix(route, "/merged"), "/removed"), "/dotted")
 			panicked, msg := guard(func() {
 				var cfg *ucfg.Config
 				var err error
@@ -277,6 +308,8 @@ func faultsReplay(args []string) int {
 					if err = cfg.Merge(truncLists(faultTreeGo(c.Tree)), opts...); err == nil {
 						err = cfg.Merge(faultTreeGo(c.Tree), opts...)
 					}
+				} else if dotted {
+					cfg, err = ucfg.NewFrom(dottedKeys(faultTreeGo(c.Tree)), opts...)
 				} else if removed {
 					if cfg, err = ucfg.NewFrom(padLists(faultTreeGo(c.Tree)), opts...); err == nil {
 						err = unpadLists(cfg, faultTreeGo(c.Tree), opts)
@@ -320,6 +353,9 @@ func faultsReplay(args []string) int {
 			}
 			if removed {
 				o.Route += "/removed"
+			}
+			if dotted {
+				o.Route += "/dotted"
 			}
 			eq := func(exp json.RawMessage) bool {
 				return o.Kind == "err" && o.Typed == "" && o.Path == want && o.Source == faultSource
